@@ -112,6 +112,18 @@ def g_run_space(spec: Dict[str, Any], tmp: Path, h: int) -> Dict[str, Any]:
             ck = tuple(sorted(_fn(s["cols"]).items()))
             if ck not in shared:
                 shared[ck] = write_source(_fn(s["cols"]), tmp / f"src{bi}", h + bi)
+                if (h + bi) % 7 == 3 and not (tmp / "other").exists():
+                    # ENVIRONMENT (file system): the declared path goes THROUGH A SYMLINKED DIRECTORY and back up: "lnk/../<file>"
+                    # denotes what the operating system says -- the file next to the link's TARGET --, not the textual collapse
+                    # "<file>" (where a decoy with the same columns and other values lies)
+                    (tmp / "other" / "sub").mkdir(parents=True)
+                    (tmp / "lnk").symlink_to(tmp / "other" / "sub")
+                    fmt, name = shared[ck]
+                    real = (tmp / name).read_text()
+                    (tmp / "other" / name).write_text(real)
+                    import re as _re
+                    (tmp / name).write_text(_re.sub(r"\d", "7", real))
+                    shared[ck] = (fmt, f"lnk/../{name}")
             fmt, name = shared[ck]
             src: Dict[str, Any] = {"format": fmt, "path": name, "mode": MODE[s["mode"]]}
             if s["mode"] == "bp" and (h + bi) % 2:
@@ -160,7 +172,10 @@ def replay_chunk(cases: List[Dict[str, Any]]):
                 continue   # zero blocks with max_runs = 0: left unspecified (the single empty run)
             h = zlib.crc32(json.dumps(spec, sort_keys=True).encode())
             for f in tmp.iterdir():
-                f.unlink()
+                if f.is_dir() and not f.is_symlink():
+                    shutil.rmtree(f)
+                else:
+                    f.unlink()
             global _skin
             _skin = SKINS[(h // 6) % len(SKINS)] if h % 6 == 1 else None
             global _keyskin
